@@ -70,7 +70,7 @@ W2_RULE = ("one evaluation = one seeded W2 run: one user session drives an Exper
            "3-32 calls drawn from the documented building/removing/property calls with a per-run random mix (swarm), valid and "
            "deliberately invalid arguments, library-generated and caller-supplied ids, retained or fresh handles. After every "
            "call the model graph is read white-box from the store. %s Distinct = distinct event-log digest.")
-register('C07', world='w2:W2World', quick=1800, thorough=100000, level='exploration',
+register('C07', world='w2:W2World', quick=1500, thorough=100000, level='exploration',
          rule=W2_RULE % "C07 oracles after every call: the published rules (vocabularies pinned in the checker), one owner per "
                         "component/interface/service, links touch only interfaces, every service port has one peer, names unique "
                         "per scope, every read-only view lists exactly the model's elements (sampled every 1-8 calls, after every "
@@ -82,7 +82,7 @@ register('C08', world='w2:W2World', quick=1800, thorough=100000, level='explorat
                         "a link goes only when left with < 2 ends), everything else bit-identical; handles the call went through "
                         "(and that agreed with the model before) list what a fresh lookup lists. Non-trivial: >=1 call changed the model.",
          assumptions=W2_ASSUME)
-register('C09', world='w2:W2World', quick=1800, thorough=100000, level='fault_enumeration',
+register('C09', world='w2:W2World', quick=1400, thorough=100000, level='fault_enumeration',
          rule=W2_RULE % "C09: every call that raises must leave the abstract state identical. Besides naturally failing calls of "
                         "the workload, 'failing' steps draw from a catalogue of ~35 failing-call templates (duplicate name/id per "
                         "element class, rejected property value at each position among good ones, the i-th of n interfaces bad for "
